@@ -13,7 +13,9 @@ package timebase
 
 //@ func (SystemClock).Epoch
 
+// Clock readings are assumed to lie between 1970 and 2242 (2^33 s), so that differences stay below 292 years.
 //@ func (SystemClock).Now
+//@   ensures sane: 0 <= result.Unix() && result.Unix() <= 8589934592
 
 //@ func (SystemClock).Step
 
